@@ -262,6 +262,10 @@ class Mon:
             self.rec.nt(("gq", p, mu, std))
 
 
+class _OwnArray(np.ndarray):
+    """a user's ndarray subclass"""
+
+
 def _tailq(q):
     """upper-tail normal quantile for small q by mpmath root finding: 0.5 erfc(z/sqrt2) = q"""
     import mpmath
@@ -340,6 +344,9 @@ def run_case(case, rec, mon=None):
             copy = bool(rng.random() < 0.6)
             if L + (start if use_default else 0) == 0:
                 continue
+            if rng.random() < 0.15 and L:
+                seg = seg.view(_OwnArray)  # the caller's spectrum as an ndarray subclass (what a memory map is, too)
+                rec.count("circshift_subclass_inputs")
             try:
                 if use_default and rng.random() < 0.5:
                     U.circshift_fourier(seg, shift, start, copy=copy)
